@@ -39,9 +39,12 @@ func (t *JSONFormatter) Write(values []octosql.Value) error {
 
 	t.buf = obj.MarshalTo(t.buf)
 	t.buf = append(t.buf, '\n')
-	t.w.Write(t.buf)
+	_, err := t.w.Write(t.buf)
 	t.buf = t.buf[:0]
 	t.arena.Reset()
+	if err != nil {
+		return fmt.Errorf("couldn't write json line: %w", err)
+	}
 	return nil
 }
 
